@@ -166,6 +166,7 @@ func (m *Machine) runInits(l *Loaded) (err error) {
 		}
 	}()
 	m.epoch = 0
+	m.syncReset()
 	m.stepBudget = 50_000_000
 	m.steps = 0
 	m.env = m.env[:0]
@@ -186,6 +187,7 @@ func (m *Machine) runInits(l *Loaded) (err error) {
 	}
 	m.initSteps = m.steps
 	m.initDone = true
+	m.syncInitDone()
 	m.stepBudget = m.opts.stepBudget
 	return nil
 }
@@ -225,6 +227,7 @@ func (m *Machine) ensureInit(l *Loaded, path string) (err error) {
 		m.callFunction(initFn, nil, nil, nil)
 	}
 	m.initDone = true
+	m.syncInitDone()
 	m.stepBudget = saveBudget
 	return nil
 }
